@@ -245,6 +245,27 @@ fn group_section(ctx: &Ctx, out: &mut String, rng: &mut rand_chacha::ChaCha20Rng
             }
         }
     }
+    // Elligator collisions: distinct inputs with the same / opposite image (model-side inversion of the map)
+    for ti in 0..24usize {
+        if ti % nshards != shard {
+            continue;
+        }
+        let mut er = rng_for(ctx.seed, "C12-elligator-collisions", 0, ti as u64);
+        let seed_r0 = rand_below(&mut er, &f.p);
+        let Some((pt, _)) = c.elligator_spec(&seed_r0) else { continue };
+        if pt.x == b(0) {
+            continue;
+        }
+        let pre = crate::eng::elligator_preimages(ctx, &pt, &mut er);
+        let pre_neg = crate::eng::elligator_preimages(ctx, &c.neg(&pt), &mut er);
+        for (i, r1) in pre.iter().enumerate() {
+            for r2 in pre.iter().skip(i + 1).chain(pre_neg.iter().take(2)) {
+                let (l0, l1) = (fq(r1), fq(r2));
+                let r = g(|| el_line(&El::hash_to_curve(&l0, &l1)));
+                let _ = writeln!(out, "hash_to_curve(related inputs) {} {} -> {:?}", hexs(r1), hexs(r2), r);
+            }
+        }
+    }
     // group programs over the shared forms
     let bins = bin_forms();
     let muls = mul_forms();
